@@ -54,7 +54,7 @@ def falsify(chk, P, n_files, per_file_flips, n_random, extra_inputs=()):
 def main():
     chk = common.Check('C09')
     import mo_common as P
-    proved = chk.prove('I18n.Props.C09', generated=())
+    proved = P.prove(chk, 'I18n.Props.C09')
     extra = []
     if os.path.exists(common.driver_path()):
         nf = 250 if chk.thorough else 60
